@@ -32,7 +32,7 @@ var (
 // ---------------------------------------------------------------------------------------------
 // windows
 
-var stepChoices = []int64{1000, 7000, 15000, 30000, 30000, 45000, 60000, 60000, 61001}
+var stepChoices = []int64{1000, 7000, 15000, 30000, 30000, 45000, 60000, 60000, 61001, 100, 200, 300, 1500}
 var stepCountChoices = []int{1, 2, 3, 5, 9, 10, 11, 12, 19, 20, 21, 22, 29, 30, 31, 35}
 
 func GenWindow(r *Rng, allowInstant bool) Window {
@@ -580,9 +580,11 @@ func (q *qgen) grouping() string {
 	if x < 3 {
 		return ""
 	}
-	n := r.Intn(3)
+	n := r.Intn(4)
 	var ls []string
 	pool := append([]string{}, labelNames...)
+	pool = append(pool, labelNames...)
+	pool = append(pool, "Z") // sorts before every lower-case name and before __name__
 	if g.on("group:name") {
 		pool = append(pool, "__name__")
 	}
@@ -689,6 +691,10 @@ func (q *qgen) matching() string {
 	for i := 0; i < n; i++ {
 		ls = append(ls, Pick(r, labelNames))
 	}
+	if r.P(0.06) {
+		// the metric name as a matching label: groups then differ in something the operator may drop
+		ls = append(ls, Pick(r, []string{"__name__", "__name__", "Z", "nolabel"}))
+	}
 	kw := "on"
 	if g.on("bin:ignoring") && r.P(0.4) {
 		kw = "ignoring"
@@ -701,7 +707,11 @@ func (q *qgen) matching() string {
 		side := Pick(r, []string{"group_left", "group_right"})
 		s += " " + side
 		if g.on("bin:group-include") && r.P(0.4) {
-			s += fmt.Sprintf(" (%s)", Pick(r, labelNames))
+			inc := Pick(r, labelNames)
+			if r.P(0.2) {
+				inc += ", " + Pick(r, []string{"Z", "a", "b", "c", "nolabel"})
+			}
+			s += fmt.Sprintf(" (%s)", inc)
 		}
 	}
 	return s
@@ -910,6 +920,19 @@ func genQuery(r *Rng, g *GenCfg) string {
 		}
 		return q.agg(d)
 	case "binary":
+		if g.on("nameless-selector") && r.P(0.03) {
+			// operands over several metric names matched on the name (and more): match groups that
+			// differ in the name only meet again in the result when the operator drops it
+			sels := []string{`{__name__=~"m0|m1"}`, `{__name__=~"m.*",a="x"}`, `{a=~".+"}`, `{__name__=~"m.*"}`, "m0", "m1"}
+			op, isCmp := q.binop()
+			b := ""
+			if isCmp && r.P(0.4) {
+				b = " bool"
+			}
+			on := Pick(r, []string{"__name__", "__name__, a", "__name__, a, b", "__name__, c", "a, __name__"})
+			kw := Pick(r, []string{"on", "on", "on", "ignoring"})
+			return fmt.Sprintf("%s %s%s %s (%s) %s", Pick(r, sels), op, b, kw, on, Pick(r, sels))
+		}
 		if r.P(0.7) {
 			return q.vecBinary(d)
 		}
